@@ -531,11 +531,36 @@ def check_tails(rep, prog, fn, m, main, rule, what, expect_push):
             rep.violation(rule, main, fn, whatt, 'tail loop actions are %s' % (acts,), key='%s|%s|tail-%s' % (rule, fn.g, owner))
 
 
-def check_dot(rep, prog, fn, rule='R17a'):
+def delegated_merge(prog, fn):
+    """(helper function, seeded cursors) when fn only forwards [begin, end) of its argument's storage to a helper of the class:
+    `return helper(v.ones.begin(), v.ones.end());`"""
+    stmts = list(fn.body.c) if fn.body is not None and fn.body.k == 'CompoundStmt' else []
+    if len(stmts) != 1 or stmts[0].k != 'ReturnStmt' or not stmts[0].c:
+        return None
+    c = stmts[0].c[0].strip_all()
+    if c.k not in ('CXXMemberCallExpr', 'CallExpr') or not c.callee or not c.callee.get('in_repo') or c.callee_id is None or len(c.args()) != 2:
+        return None
+    hf = prog.fn_of_fref(c.callee_id)
+    if hf is None or hf.body is None or len(hf.param_ids) != 2:
+        return None
+    a0, a1 = c.args()[0].strip_all(), c.args()[1].strip_all()
+    if a0.k == 'CXXMemberCallExpr' and a1.k == 'CXXMemberCallExpr' and a0.callee['name'] in ('begin', 'cbegin') and a1.callee['name'] in ('end', 'cend') and \
+            storage_owner(prog, fn, a0.object_arg()) == 'arg' and storage_owner(prog, fn, a1.object_arg()) == 'arg':
+        return hf, {hf.param_ids[0]: ('arg', 'begin'), hf.param_ids[1]: ('arg', 'end')}
+    return None
+
+
+def check_dot(rep, prog, fn, rule='R17a', seed=None):
     what = 'operator* is the parity of the number of common coordinates'
     m = MergeModel(prog, fn)
+    if seed:
+        m.cursors.update(seed)
     main = find_main_loop(prog, fn, m.cursors)
     if main is None:
+        dm = delegated_merge(prog, fn) if seed is None else None
+        if dm is not None:
+            check_dot(rep, prog, dm[0], rule, seed=dm[1])
+            return
         rep.undecided(rule, fn.body, fn, what, 'no two-cursor merge loop found')
         return
     m.classify_locals(main.body)
